@@ -24,106 +24,153 @@ from .. import model
 CALC = r'^<compiler::date::DateItem as compiler::DataItem>::calculate$'
 
 
-def _leaf_factory(Y, M, D, ny, nm):
+DAY_SECS = 60 * 60 * 24
+MONTH_SECS = DAY_SECS * 30
+YEAR_SECS = DAY_SECS * 365
+
+
+def _leaf_factory(Y, M, D, S, op_discr, op_arg):
+    """leaf assignment of one table cell: the receiver's date is (Y, M, D), the other operand is a duration of S seconds, the
+    operation is the variant with discriminant op_discr. Dates are {y, m, d}, durations {secs}; `date +/- duration` yields
+    the date with the direction and the seconds still applied (that last step is chrono's, outside the table)."""
+    from ..evalint import ev, Unknown
+
     def leaf(body, e):
         e2 = strip(e, transparent=False)
         k = e2[0]
+        if k == 'arg' and e2[1] == op_arg:
+            return {'__discr__': op_discr}
+        if k == 'aggr' and e2[1].endswith('Option::None'):
+            return 'NONE'
+        if k == 'aggr' and e2[1].endswith('DateItem::DateItem'):
+            return ev(body, e2[2][0], leaf)
         if k == 'call':
             p = e2[1]
-            if p.endswith('DateItem::get_year_from_duration'):
-                return ny
-            if p.endswith('DateItem::get_month_from_duration'):
-                return nm
+            if p.endswith('::from_residual'):
+                return 'NONE'
+            if re.search(r'Rc::<.*>::new$|Rc::new$', p):
+                return ev(body, e2[2][0], leaf)
+            if p.endswith('::get_duration'):
+                return {'secs': S}
+            if re.search(r'(TimeDelta|Duration)::num_seconds$', p):
+                d = ev(body, e2[2][0], leaf)
+                if isinstance(d, dict) and 'secs' in d:
+                    return d['secs']
+                raise Unknown('num_seconds of a non-duration')
+            if re.search(r'(TimeDelta|Duration)::seconds$', p):
+                n = ev(body, e2[2][0], leaf)
+                if isinstance(n, int):
+                    return {'secs': n}
+                raise Unknown('seconds(non-int)')
             if re.search(r'Datelike>?::(year|month|day)$', p):
-                # component of a date value
-                from ..evalint import ev
                 d = ev(body, e2[2][0], leaf)
                 if isinstance(d, dict) and 'y' in d:
                     return d[p.rsplit('::', 1)[1][0]]
-                return None
+                raise Unknown('component of a non-date')
             if re.search(r'NaiveDate::from_ymd(_opt)?$', p):
-                from ..evalint import ev
                 y, m, d = (ev(body, a, leaf) for a in e2[2])
                 return {'y': y, 'm': m, 'd': d}
-        if k == 'field' and e2[2] in ('0', '#0') and strip(e2[1])[0] == 'arg' and strip(e2[1])[2] == 'self':
+            m = re.search(r'NaiveDate as .*(Add|Sub)<.*(Duration|TimeDelta)>>::(add|sub)$', p)
+            if m:
+                d = ev(body, e2[2][0], leaf)
+                r = ev(body, e2[2][1], leaf)
+                if isinstance(d, dict) and 'y' in d and isinstance(r, dict) and 'secs' in r:
+                    return dict(d, dir=m.group(3), rest=r['secs'])
+                raise Unknown('date +/- duration operands')
+        if k == 'field' and e2[2] in ('0', '#0') and strip(e2[1])[0] == 'arg' and strip(e2[1])[1] == 1:
             return {'y': Y, 'm': M, 'd': D}
         return None
     return leaf
 
 
-def _op_of(ctx, b, bid):
-    """OperationType variant under which block bid runs"""
+_TABLE = {}
+
+
+def calc_cell(ctx, op, M, S):
+    """evaluated result of DateItem::calculate for one cell, or None when the term is not evaluable / not unique"""
+    from ..evalint import feasible_values
+    key = (id(ctx.facts), op, M, S)
+    if key in _TABLE:
+        return _TABLE[key]
+    b = ctx.facts.one(CALC)
+    if b.loops():
+        raise AnchorLost('DateItem::calculate contains a loop: its result is no longer a term')
+    if b.argc != 5:
+        raise AnchorLost('DateItem::calculate no longer has the DataItem::calculate signature')
     adt = ctx.facts.adts.get('compiler::OperationType')
-    by = {v['discr']: v['name'] for v in adt['variants']}
-    for (_, d, v) in b.conditions(bid):
-        if render(d) == 'discr(operation_type)' and not isinstance(v, tuple) and len(v) == 1:
-            return by.get(list(v)[0])
-    return None
+    if not adt:
+        raise AnchorLost('enum compiler::OperationType not found')
+    discr = {v['name']: v['discr'] for v in adt['variants']}
+    leaf = _leaf_factory(2021, M, 15, S, discr[op], 5)
+    vals = [v for v, _ in feasible_values(b, b.ret_expr(), leaf)]
+    dates = []
+    for v in vals:
+        if isinstance(v, dict) and v not in dates:
+            dates.append(v)
+    res = None
+    if len(dates) == 1 and not any(v is None for v in vals) and all(isinstance(dates[0].get(k), int) for k in ('y', 'm', 'd', 'rest')):
+        res = dates[0]
+    _TABLE[key] = res
+    return res
 
 
 def d1_steps(ctx):
-    """D1 month and year steps are calendar arithmetic"""
+    """D1 month and year steps are calendar arithmetic: the date that DateItem::calculate hands to the final `+ / - rest` is
+    tabulated for Add / Sub x year / month step x 12 start months x 12 counts, wherever and however the steps are written"""
     ctx.rule('D1', 'month / year step tables of DateItem::calculate', floor=4)
     b = ctx.facts.one(CALC)
     ctx.fn(b)
-    sites = []
-    for bid, t in b.calls(r'NaiveDate::from_ymd(_opt)?$'):
-        op = _op_of(ctx, b, bid)
-        conds = ' '.join(b.cond_text(bid))
-        step = 'month' if 'get_month_from_duration' in conds else ('year' if 'get_year_from_duration' in conds else None)
-        if op is None or step is None:
-            ctx.finding('D1', 'site-not-classified', 'a date is rebuilt at %s outside the year / month steps of Add / Sub (%s)' % (t['loc'], conds[:80]), site=t['loc'])
-            continue
-        sites.append((op, step, bid, t))
-    have = sorted((op, step) for op, step, _, _ in sites)
-    if have != [('Add', 'month'), ('Add', 'year'), ('Sub', 'month'), ('Sub', 'year')]:
-        raise AnchorLost('DateItem::calculate: expected the four rebuild sites (Add/Sub x year/month), found %s' % have)
     Y, D = 2021, 15
-    for op, step, bid, t in sites:
+    for op in ('Add', 'Sub'):
         sign = 1 if op == 'Add' else -1
-        args = [b.expr(a) for a in t['args']]
-        classes = {}
-        n_ok = 0
-        cells = 0
-        for M in range(1, 13):
-            for n in range(1, 13):
-                ny, nm = (n, 0) if step == 'year' else (0, n)
-                leaf = _leaf_factory(Y, M, D, ny, nm)
-                got = tuple(try_ev(b, a, leaf) for a in args)
-                cells += 1
-                if any(g is None for g in got):
-                    classes.setdefault('not-extractable', []).append((M, n, got))
+        for step in ('year', 'month'):
+            classes = {}
+            n_ok = 0
+            cells = 0
+            for M in range(1, 13):
+                for n in range(1, 13):
+                    S = n * (YEAR_SECS if step == 'year' else MONTH_SECS) + 3 * DAY_SECS
+                    r = calc_cell(ctx, op, M, S)
+                    cells += 1
+                    if r is None:
+                        classes.setdefault('not-extractable', []).append((M, n, None))
+                        continue
+                    got = (r['y'], r['m'], r['d'])
+                    if step == 'year':
+                        want = (Y + sign * n, M, D)
+                    else:
+                        tot = M - 1 + sign * n
+                        want = (Y + tot // 12, tot % 12 + 1, D)
+                    if got == want:
+                        n_ok += 1
+                    elif not (1 <= got[1] <= 12):
+                        classes.setdefault('invalid-month', []).append((M, n, got))
+                    elif got[0] != want[0]:
+                        classes.setdefault('wrong-year', []).append((M, n, got, want))
+                    elif got[1] != want[1]:
+                        classes.setdefault('wrong-month', []).append((M, n, got, want))
+                    else:
+                        classes.setdefault('wrong-day', []).append((M, n, got, want))
+            ctx.analysed('D1', '%s/%s step: %d cells (month x count), %d agree with calendar arithmetic' % (op, step, cells, n_ok))
+            if not classes:
+                ctx.ok('D1', '%s %s step = calendar arithmetic on all %d (month, count) cells' % (op, step, cells), 'table', site=b.loc)
+            elif n_ok:
+                ctx.ok('D1', '%s %s step = calendar arithmetic on %d of %d cells (the others are findings)' % (op, step, n_ok, cells), 'table', site=b.loc)
+            for cls, rows in sorted(classes.items()):
+                M, n, got = rows[0][:3]
+                if got is None:
+                    ctx.finding('D1', 'DateItem::calculate/%s/%s-step/%s' % (op, step, cls),
+                                'DateItem::calculate, %s, %s step: the date handed to the final +/- cannot be evaluated for month %d, count %d (%d of %d cells)' % (op, step, M, n, len(rows), cells), site=b.loc)
                     continue
-                if step == 'year':
-                    want = (Y + sign * n, M, D)
-                else:
-                    tot = M - 1 + sign * n
-                    want = (Y + tot // 12, tot % 12 + 1, D)
-                if got == want:
-                    n_ok += 1
-                elif not (1 <= got[1] <= 12):
-                    classes.setdefault('invalid-month', []).append((M, n, got))
-                elif got[0] != want[0]:
-                    classes.setdefault('wrong-year', []).append((M, n, got, want))
-                elif got[1] != want[1]:
-                    classes.setdefault('wrong-month', []).append((M, n, got, want))
-                else:
-                    classes.setdefault('wrong-day', []).append((M, n, got, want))
-        ctx.analysed('D1', '%s/%s step: %d cells (month x count), %d agree with calendar arithmetic' % (op, step, cells, n_ok))
-        if not classes:
-            ctx.ok('D1', '%s %s step = calendar arithmetic on all %d (month, count) cells' % (op, step, cells), 'table', site=t['loc'])
-        for cls, rows in sorted(classes.items()):
-            M, n, got = rows[0][:3]
-            ex = 'month %d %s %d %ss -> (year %s, month %s, day %s)' % (M, '+' if sign > 0 else '-', n, step, got[0], got[1], got[2])
-            if len(rows[0]) > 3:
-                ex += ', calendar arithmetic gives (%d, %d, %d)' % rows[0][3]
-            ctx.finding('D1', 'DateItem::calculate/%s/%s-step/%s' % (op, step, cls),
-                        'DateItem::calculate, %s, %s step: %s in %d of %d (month, count) cells, e.g. %s' % (op, step, cls.replace('-', ' '), len(rows), cells, ex), site=t['loc'])
+                ex = 'month %d %s %d %ss -> (year %s, month %s, day %s)' % (M, '+' if sign > 0 else '-', n, step, got[0], got[1], got[2])
+                if len(rows[0]) > 3:
+                    ex += ', calendar arithmetic gives (%d, %d, %d)' % rows[0][3]
+                ctx.finding('D1', 'DateItem::calculate/%s/%s-step/%s' % (op, step, cls),
+                            'DateItem::calculate, %s, %s step: %s in %d of %d (month, count) cells, e.g. %s' % (op, step, cls.replace('-', ' '), len(rows), cells, ex), site=b.loc)
     # checked construction: the panicking constructor with computed arguments
-    for op, step, bid, t in sites:
-        if t['callee']['path'].endswith('from_ymd'):
-            ctx.note('D1: the %s %s step rebuilds the date with the panicking NaiveDate::from_ymd (day-of-month overflow such as 31 Jan + 1 month and the invalid-month cells panic: C01-g)' % (op, step))
-            break
+    for bid, t in b.calls(r'NaiveDate::from_ymd$'):
+        ctx.note('D1: a step rebuilds the date with the panicking NaiveDate::from_ymd (day-of-month overflow such as 31 Jan + 1 month and the invalid-month cells panic: C01-g)')
+        break
 
 
 def d2_small_date(ctx):
@@ -350,62 +397,62 @@ def d6_month_numbers(ctx):
 
 
 def d7_split(ctx):
-    """D7 duration split constants and the operator applied to the remainder"""
+    """D7 duration split: a duration of a years (365 d) + b months (30 d) + r days moves the year by a, the month by b, and
+    leaves exactly r days to the final `date + rest` (Add) / `date - rest` (Sub); the constants are 365 and 30 days.
+    Decided on the evaluated result term (the same table as D1), so helper names and statement order do not matter."""
     ctx.rule('D7', 'duration split and remainder operator', floor=8)
     F = ctx.facts
     consts = {k.rsplit('::', 1)[1]: v.get('val') for k, v in F.consts.items() if k.startswith('formatter::')}
-    for name, unit in (('get_year_from_duration', 'YEAR'), ('get_month_from_duration', 'MONTH')):
-        g = F.one(r'^compiler::date::DateItem::%s$' % name)
-        ctx.fn(g)
-        r = render(g.ret_expr())
-        want = consts.get(unit)
-        if want is None:
+    for unit, want in (('YEAR', YEAR_SECS), ('MONTH', MONTH_SECS)):
+        if consts.get(unit) is None:
             raise AnchorLost('constant formatter::%s not found' % unit)
-        if re.fullmatch(r'\(abs\(TimeDelta::num_seconds\(duration\)\) Div %d\)' % want, r) or re.fullmatch(r'\(i64::abs\(TimeDelta::num_seconds\(duration\)\) Div %d\)' % want, r) or (('Div %d)' % want) in r and 'abs(' in r and 'num_seconds(duration)' in r):
-            ctx.ok('D7', '%s = |seconds| / %s' % (name, unit), 'shape', site=g.loc)
+        if consts[unit] == want:
+            ctx.ok('D7', 'formatter::%s = %d s' % (unit, want), 'data')
         else:
-            ctx.finding('D7', '%s/formula' % name, '%s computes %s; expected |seconds| / %s (%d)' % (name, r[:80], unit, want), site=g.loc)
+            ctx.finding('D7', 'constant/%s' % unit, 'formatter::%s is %s seconds; the split uses %d-day %ss' % (unit, consts[unit], want // DAY_SECS, unit.lower()), site='src/formatter/mod.rs')
     b = F.one(CALC)
-    n = 0
-    for bid, t in b.calls(r'TimeDelta::seconds$'):
-        op = _op_of(ctx, b, bid)
-        conds = ' '.join(b.cond_text(bid))
-        step = 'MONTH' if 'get_month_from_duration' in conds else ('YEAR' if 'get_year_from_duration' in conds else None)
-        if step is None:
-            continue
-        n += 1
-        r = render(b.mexpr(t['args'][0]))
-        want = consts[step]
-        if re.search(r'TimeDelta::num_seconds\(\$duration\) SubWithOverflow \(%d MulWithOverflow' % want, r) or re.search(r'num_seconds\(\$duration\) Sub \(%d Mul' % want, r):
-            ctx.ok('D7', '%s %s step removes n * %s from the duration' % (op, step.lower(), step), 'shape', site=t['loc'], sample=False)
-        else:
-            ctx.finding('D7', 'DateItem::calculate/%s/%s-remainder' % (op, step.lower()), 'after the %s step the remaining duration is %s; expected seconds - %s * n' % (step.lower(), r[:80], step), site=t['loc'])
-    if n < 4:
-        raise AnchorLost('DateItem::calculate: expected four remainder computations, found %d' % n)
-    # final application
-    seen = {}
-    for a, conds in alternatives(b, b.ret_expr()):
-        a = strip(a)
-        cs = [cond_str(d, v) for d, v in conds]
-        for x in walk(a):
-            if x[0] == 'aggr' and x[1].endswith('date::DateItem::DateItem'):
-                val = strip(x[2][0])
-                op = None
-                adt = F.adts['compiler::OperationType']
-                by = {v['discr']: v['name'] for v in adt['variants']}
-                for c in cs:
-                    m = re.fullmatch(r'discr\(operation_type\)=\[(\d+)\]', c)
-                    if m:
-                        op = by.get(int(m.group(1)))
-                if val[0] == 'call':
-                    seen[op] = (val[1].rsplit('::', 1)[1], render(val)[:80])
-    for op, want in (('Add', 'add'), ('Sub', 'sub')):
-        if op not in seen:
-            ctx.finding('D7', 'DateItem::calculate/%s/no-result' % op, 'DateItem::calculate builds no date for %s' % op, site=b.loc)
-        elif seen[op][0] != want:
-            ctx.finding('D7', 'DateItem::calculate/%s/remainder-operator' % op, 'the remaining days are applied with `%s` under %s' % (seen[op][0], op), site=b.loc)
-        else:
-            ctx.ok('D7', '%s applies the remaining duration with %s' % (op, want), 'gamma', site=b.loc)
+    ctx.fn(b)
+    Y, D = 2021, 15
+    for op in ('Add', 'Sub'):
+        sign = 1 if op == 'Add' else -1
+        bad = {}
+        cells = 0
+        for (a_, b_, r_) in ((0, 0, 5), (1, 0, 0), (0, 1, 0), (2, 3, 7), (1, 5, 29), (3, 0, 20), (0, 11, 20), (10, 2, 0), (0, 0, 29)):
+            S = a_ * YEAR_SECS + b_ * MONTH_SECS + r_ * DAY_SECS
+            # the split is greedy: years first, then months of what is left
+            ea = S // YEAR_SECS
+            eb = (S - ea * YEAR_SECS) // MONTH_SECS
+            er = S - ea * YEAR_SECS - eb * MONTH_SECS
+            M = 6
+            r = calc_cell(ctx, op, M, S)
+            cells += 1
+            if r is None:
+                bad.setdefault('not-extractable', []).append((S, None))
+                continue
+            tot = M - 1 + sign * eb
+            want_date = (Y + sign * ea + tot // 12, tot % 12 + 1, D)
+            if r.get('dir') != ('add' if op == 'Add' else 'sub'):
+                bad.setdefault('remainder-operator', []).append((S, r))
+            if r['rest'] != er:
+                bad.setdefault('%s-remainder' % ('year' if eb == 0 and ea else 'month'), []).append((S, r))
+            if (r['y'], r['m'], r['d']) != want_date and 1 <= want_date[1] <= 12 and not (op == 'Sub' and tot < 0) and r['rest'] == er:
+                bad.setdefault('split', []).append((S, r, want_date))
+        ctx.analysed('D7', '%s: %d durations (years, months, days mixes) evaluated' % (op, cells))
+        for cls, rows in sorted(bad.items()):
+            S, r = rows[0][:2]
+            if cls == 'not-extractable':
+                ctx.finding('D7', 'DateItem::calculate/%s/not-extractable' % op, 'DateItem::calculate(%s): the result term cannot be evaluated for a duration of %d s' % (op, S), site=b.loc)
+            elif cls == 'remainder-operator':
+                ctx.finding('D7', 'DateItem::calculate/%s/remainder-operator' % op, 'the remaining days are applied with `%s` under %s' % (r.get('dir'), op), site=b.loc)
+            elif cls == 'split':
+                ctx.finding('D7', 'DateItem::calculate/%s/split' % op, 'a duration of %d s (= %d y %d m) moves the date to %s; whole 365-day years then whole 30-day months give %s' % (
+                    S, S // YEAR_SECS, (S % YEAR_SECS) // MONTH_SECS, (r['y'], r['m'], r['d']), rows[0][2]), site=b.loc)
+            else:
+                ctx.finding('D7', 'DateItem::calculate/%s/%s' % (op, cls), 'after the year / month steps of a %d s duration %d s are left for the final %s; expected %d s (seconds - YEAR * years - MONTH * months)' % (
+                    S, r['rest'], '+' if sign > 0 else '-', S % YEAR_SECS % MONTH_SECS), site=b.loc)
+        if not bad:
+            for what in ('years = |s| / YEAR, months = |rest| / MONTH', 'the remainder loses exactly the whole years and months', 'the remainder is applied with %s' % ('+' if sign > 0 else '-')):
+                ctx.ok('D7', '%s: %s (%d durations)' % (op, what, cells), 'table', site=b.loc)
 
 
 def d8_month_spellings(ctx):
